@@ -336,18 +336,29 @@ def check(run):
                          timeout=2400, args=margs)
     stats = {}
     nontrivial = set()
-    for req, m, i, a in zip(cases, meta, impl, ans):
-        if i.startswith("TOOL"):
-            run.report("spec-violation", {"request": req, "kind": m["kind"], "quality": m.get("quality", -1), "lgwin": m.get("lgwin", -1), "dict_len": m.get("dict_len", 0)},
-                       {"impl": i[:300]}, what="harness process died on this case")
-            continue
-        if len(run.violations) >= 12:
-            run.note("12 violations recorded; the remaining cases of this run are not evaluated")
-            break
-        evaluate(run, req, m, i, a, stats)
-        _, _, v = parse_line(i)
-        if int(v.get("NMB", 0)) >= 1 and int(v.get("NCOPY", 0)) + int(v.get("NDICT", 0)) >= 1:
-            nontrivial.add(req)
+    # two passes: property failures with a concrete input first, disagreements with the model afterwards,
+    # so that the report cap never hides a failing input behind correspondence-only reports
+    real_report = run.report
+    for phase in ("spec", "correspondence"):
+        def filtered(kind, *aa, **kw):
+            if (kind == "correspondence") == (phase == "correspondence"):
+                real_report(kind, *aa, **kw)
+        run.report = filtered
+        cap = 12 if phase == "spec" else len(run.violations) + 6
+        st = stats if phase == "spec" else {}
+        for req, m, i, a in zip(cases, meta, impl, ans):
+            if i.startswith("TOOL"):
+                run.report("spec-violation", {"request": req, "kind": m["kind"], "quality": m.get("quality", -1), "lgwin": m.get("lgwin", -1), "dict_len": m.get("dict_len", 0)},
+                           {"impl": i[:300]}, what="harness process died on this case")
+                continue
+            if len(run.violations) >= cap:
+                run.note("%d violations recorded; the remaining cases of this run are not evaluated for %s" % (len(run.violations), phase))
+                break
+            evaluate(run, req, m, i, a, st)
+            _, _, v = parse_line(i)
+            if int(v.get("NMB", 0)) >= 1 and int(v.get("NCOPY", 0)) + int(v.get("NDICT", 0)) >= 1:
+                nontrivial.add(req)
+    run.report = real_report
     run.cov["evaluations"] = len(cases) + len(xr)
     run.cov["distinct_nontrivial"] = len(nontrivial)
     run.cov["rule"] = ("cases = (parameters, input recipe, optional custom dictionary, call history / entry point); grid quality 2-11 x lgwin 10-24; "
